@@ -89,5 +89,54 @@ theorem update_gradOK (e : Env α) (s : St α) (i j : Nat) (hij : i ≠ j) (hi :
       ring
   rw [hsum]; ring
 
+theorem update_grad_length (e : Env α) (s : St α) (i j : Nat) (hg : s.nactive ≤ s.grad.length) :
+    (update e s i j).grad.length = s.grad.length := by
+  rw [update_grad]
+  simp only [List.length_append, List.length_zipWith, List.length_zip, dist_length, List.length_take,
+    List.length_drop]
+  omega
+
+/-- a working-set sequence inside the active prefix -/
+def ActiveSteps (s : St α) (steps : List (Nat × Nat)) : Prop :=
+  ∀ st ∈ steps, st.1 ≠ st.2 ∧ st.1 < s.nactive ∧ st.2 < s.nactive
+
+theorem updates_gradOK (e : Env α) (steps : List (Nat × Nat)) (s : St α)
+    (hv : ActiveSteps s steps) (hn : s.nactive ≤ s.alpha.length) (hg : s.grad.length = s.alpha.length)
+    (h : GradOK e s) : GradOK e (steps.foldl (fun s st => update e s st.1 st.2) s) := by
+  induction steps generalizing s with
+  | nil => exact h
+  | cons st rest ih =>
+    have h0 := hv st (List.mem_cons_self ..)
+    simp only [List.foldl_cons]
+    apply ih
+    · intro x hx
+      rw [update_nactive]
+      exact hv x (List.mem_cons_of_mem _ hx)
+    · rw [update_nactive, update_alpha_length]; exact hn
+    · rw [update_grad_length e s st.1 st.2 (by omega), update_alpha_length]; exact hg
+    · exact update_gradOK e s st.1 st.2 h0.1 h0.2.1 h0.2.2 hn hg h
+
+/-- `SolverState::new` from the zero point (C-classification, epsilon-regression, one-class's complement):
+every variable is at its lower bound, no kernel column is fetched, the gradient is the linear term -/
+theorem init_zero_core (e : Env α) (a p b : List α) (y : List Bool) (hz : ∀ k, gf a k = 0) :
+    (init e a p b y).alpha = a ∧ (init e a p b y).grad = p ∧ (init e a p b y).p = p ∧
+    (init e a p b y).nactive = a.length := by
+  unfold init
+  dsimp only
+  apply foldl_inv (fun s : St α => s.alpha = a ∧ s.grad = p ∧ s.p = p ∧ s.nactive = a.length)
+  · exact ⟨rfl, rfl, rfl, rfl⟩
+  · intro acc x _ h
+    have hl : reachedLower acc x = true := by
+      unfold reachedLower; rw [h.1, hz x]; simp
+    simp only [hl, Bool.not_true, Bool.false_eq_true, if_false]
+    exact h
+
+theorem init_zero_gradOK (e : Env α) (a p b : List α) (y : List Bool) (hz : ∀ k, gf a k = 0) :
+    GradOK e (init e a p b y) := by
+  obtain ⟨c1, c2, c3, c4⟩ := init_zero_core e a p b y hz
+  intro k _
+  rw [c2, c3, c1]
+  simp [hz]
+
 end grad
 end LinfaSpec.Smo
